@@ -545,3 +545,95 @@ Definition pools_match (a : api) (w : view) : Prop :=
 
 Definition fresh_eq (a : api) (w : view) : Prop :=
   nodes_match a w /\ maps_match a w /\ binds_match a w /\ pools_match a w.
+
+(* ================= NodePoolState (pkg/controllers/state/statenodepool.go) as driven by Cluster ================= *)
+(* Active / Deleting sets per pool and the claim -> pool map.  PendingDisruption and the reserved node
+   counts are written only by the disruption / provisioning controllers, never by the informers or
+   Mark/UnmarkForDeletion, so they stay empty / zero here and are not modelled.
+   NodePoolState is a separate component next to the cache: the calls Cluster makes into it are replayed
+   by [nps_step] from the cache before and after the Cluster method (same order as in the code). *)
+Record npstate := mkNPS { ps_sets : amap (list string * list string); ps_map : amap string }.
+Definition nps0 : npstate := mkNPS [] [].
+
+Definition sins (x : string) (l : list string) : list string := if mem x l then l else x :: l.
+Definition sdel (x : string) (l : list string) : list string := filter (fun y => negb (x =s y)) l.
+
+Definition ps_get (np : string) (st : npstate) : list string * list string :=
+  match aget np (ps_sets st) with Some v => v | None => ([], []) end.
+
+(* ensureNodePoolEntry + the three set updates of MarkNodeClaimActive / MarkNodeClaimDeleting *)
+Definition mark_active (np k : string) (st : npstate) : npstate :=
+  let '(a, d) := ps_get np st in mkNPS (aset np (sins k a, sdel k d) (ps_sets st)) (ps_map st).
+Definition mark_deleting (np k : string) (st : npstate) : npstate :=
+  let '(a, d) := ps_get np st in mkNPS (aset np (sdel k a, sins k d) (ps_sets st)) (ps_map st).
+
+(* NodePoolState.UpdateNodeClaim *)
+Definition nps_update (cl : claimobj) (marked : bool) (st : npstate) : npstate :=
+  if c_pool cl =s "" then st else
+  let st1 := if c_name cl =s "" then st
+             else mkNPS (match aget (c_pool cl) (ps_sets st) with Some _ => ps_sets st | None => aset (c_pool cl) ([], []) (ps_sets st) end)
+                        (aset (c_name cl) (c_pool cl) (ps_map st)) in
+  if marked then mark_deleting (c_pool cl) (c_name cl) st1 else mark_active (c_pool cl) (c_name cl) st1.
+
+(* NodePoolState.Cleanup (nothing is ever reserved or pending here) *)
+Definition nps_cleanup (k : string) (st : npstate) : npstate :=
+  let np := sget k (ps_map st) in
+  mkNPS (match aget np (ps_sets st) with
+         | Some (a, d) =>
+             match sdel k a, sdel k d with
+             | [], [] => adel np (ps_sets st)
+             | a', d' => aset np (a', d') (ps_sets st)
+             end
+         | None => ps_sets st
+         end) (adel k (ps_map st)).
+
+Definition nps_mark (b : bool) (c : cache) (st : npstate) (id : string) : npstate :=
+  match aget id (nodes c) with
+  | Some s => match sn_claim s with
+              | Some cl => if b then mark_deleting (c_pool cl) (c_name cl) st
+                           else if c_del cl then st else mark_active (c_pool cl) (c_name cl) st
+              | None => st
+              end
+  | None => st
+  end.
+
+(* [c] the cache before the Cluster method, [c'] after it *)
+Definition nps_step (a : api) (c c' : cache) (o : op) (st : npstate) : npstate :=
+  if panicked c then st else
+  match o with
+  | DeliverClaim k =>
+      match aget k (a_claims a) with
+      | Some cl =>
+          let st1 := if c_pid cl =s "" then st else
+                     match aget k (c2p c) with
+                     | Some id => if id =s c_pid cl then st else nps_cleanup k st
+                     | None => st
+                     end in
+          if panicked c' then st1 else
+          nps_update cl (match aget (c_pid cl) (nodes c') with Some s => sn_mfd s | None => false end) st1
+      | None => if panicked c' then st else nps_cleanup k st
+      end
+  | Mark ids => fold_left (nps_mark true c) ids st      (* marks never change which NodeClaim an entry holds *)
+  | Unmark ids => fold_left (nps_mark false c) ids st
+  | _ => st
+  end.
+
+Definition step3 (s : api * cache * npstate) (o : op) : api * cache * npstate :=
+  let '(a, c, st) := s in
+  let a' := api_step a o in let c' := cache_step a' c o in (a', c', nps_step a' c c' o st).
+Definition run3 (ops : list op) : api * cache * npstate := fold_left step3 ops (api0, cache0, nps0).
+
+(* what the recomputation yields for NodePoolState: Some true = Deleting, Some false = Active *)
+Definition spec_member (a : api) (w : view) (pool k : string) : option bool :=
+  match aget k (a_claims a) with
+  | Some cl => if (c_pool cl =s pool) && negb (pool =s "")
+               then Some (if c_pid cl =s "" then false else sn_mfd (spec_sn a (vmarked w (c_pid cl)) (c_pid cl)))
+               else None
+  | None => None
+  end.
+
+Definition nps_match (a : api) (w : view) (st : npstate) : Prop :=
+  forall pool, pool <> "" ->
+    NoDup (fst (ps_get pool st)) /\ NoDup (snd (ps_get pool st)) /\
+    forall k, mem k (fst (ps_get pool st)) = match spec_member a w pool k with Some false => true | _ => false end /\
+              mem k (snd (ps_get pool st)) = match spec_member a w pool k with Some true => true | _ => false end.
